@@ -5,3 +5,14 @@ Import ListNotations.
 Definition mq_case := (list host * list (host * node_state) * list (host * node_state) * bool)%type.
 Definition ok_mq (c : mq_case) : bool := let '(ha, db, dcs, lost) := c in Bool.eqb (manager_lost_quorum ha db dcs) lost.
 Definition mismatches_mq := mismatches ok_mq.
+
+(* K1: the HA counts of util.go *)
+From Mysync Require Import Base.Config Procs.NodeOps Procs.Switchover Procs.Repair Procs.Manager.
+Open Scope Z_scope.
+(* (node list, cluster state, HA nodes, running HA replicas, alive HA replicas within the list, dubious HA hosts sorted) *)
+Definition cnt_case := (list host * list (host * node_state) * Z * Z * Z * list host)%type.
+Definition ok_cnt (c : cnt_case) : bool :=
+  let '(nodes, cs, ha, running, within, dub) := c in
+  (count_ha_nodes cs =? ha) && (count_running_ha_slaves cs =? running) && (count_alive_ha_slaves_within nodes cs =? within) &&
+  (if list_eq_dec N.eq_dec (dubious_ha_hosts cs) dub then true else false).
+Definition mismatches_cnt := mismatches ok_cnt.
